@@ -34,6 +34,44 @@ func fixedSchema() *Schema {
 	return s
 }
 
+// mangledSchema: object types and fields whose names Go name mangling treats specially (leading initialism,
+// all-caps, snake_case, trailing underscore, leading lower case, digits, single letters, Go keywords after
+// lower-casing). LcFirst / ToGoPrivate / ToGo / cases.Title disagree on most of the type names.
+func mangledSchema() *Schema {
+	s := &Schema{Files: []string{"a", "b"}}
+	obj := func(name, file string, fs ...*SField) *SType {
+		t := &SType{Name: name, File: file, Fields: []*SField{{Name: "id", Ret: "ID!", File: file}}}
+		for _, f := range fs {
+			if f.File == "" {
+				f.File = file
+			}
+			t.Fields = append(t.Fields, f)
+		}
+		return t
+	}
+	s.Types = []*SType{
+		{Name: "Query", File: "a", Fields: []*SField{
+			{Name: "urlInfo", Ret: "URLInfo!", File: "a", Resolver: true},
+			{Name: "audit_log", Args: 1, Ret: "[audit_entry!]!", File: "b", Resolver: true},
+			{Name: "SKUs", Ret: "[SKU!]", File: "a", Resolver: true},
+		}},
+		obj("URLInfo", "a", &SField{Name: "hits", Ret: "Int!", Resolver: true}, &SField{Name: "URL", Ret: "String!", Resolver: true},
+			&SField{Name: "user_id", Ret: "ID!", Resolver: true, File: "b"}, &SField{Name: "headers", Ret: "[HTTPHeader!]!"}),
+		obj("audit_entry", "b", &SField{Name: "actor", Ret: "String!", Resolver: true}, &SField{Name: "created_at", Args: 1, Ret: "String", Resolver: true}),
+		obj("SKU", "b", &SField{Name: "apiKey", Ret: "String", Resolver: true}),
+		obj("HTTPHeader", "a", &SField{Name: "x", Ret: "Int", Resolver: true}),
+		obj("my_Type", "b", &SField{Name: "type", Ret: "Type", Resolver: true}),
+		obj("userId", "a", &SField{Name: "n2o", Ret: "Int", Resolver: true, File: "b"}),
+		obj("Type", "b", &SField{Name: "func", Ret: "String", Resolver: true}),
+		obj("X", "a", &SField{Name: "Y", Ret: "Int", Resolver: true}),
+		obj("Item_", "b", &SField{Name: "trailing_", Ret: "Int", Resolver: true}, &SField{Name: "getURLForID", Args: 2, Ret: "userId", Resolver: true}),
+		{Name: "Mutation", File: "b", Fields: []*SField{
+			{Name: "setURL", Args: 1, Ret: "URLInfo", File: "b", Resolver: true},
+		}},
+	}
+	return s
+}
+
 type scriptFn func(w *W, r *rng.R, k int, o *Obs) error
 
 // edit-then-regenerate with an unchanged schema, then one more plain regeneration
@@ -140,7 +178,7 @@ func init() {
 		ExtraHelpers: []string{"func helperTight()int{return 1}", "var   helperSpaced   =   []int{1,\n2}"}}))
 	// malformed stream: the user's package does not type-check / does not parse when gqlgen runs
 	reg("malformed-type-error-in-body", 2, editCase(EditOpts{
-		BodyFor: map[string]string{"queryResolver.Todos": "\n\tx := undefinedThing(ctx)\n\treturn x.Nope, nil\n"},
+		BodyFor:      map[string]string{"queryResolver.Todos": "\n\tx := undefinedThing(ctx)\n\treturn x.Nope, nil\n"},
 		ExtraHelpers: []string{"func helperBad() int { return alsoUndefined }"}}))
 	reg("malformed-syntax-error", 1, func(w *W, r *rng.R, k int, o *Obs) error {
 		switch k {
@@ -262,6 +300,107 @@ func init() {
 				f := w.Sch.addField(r, t, w.Sch.randFile(r))
 				o.Ops = append(o.Ops, "add-field "+t.Name+"."+f.Name+"@"+f.File)
 			}
+		}
+		return nil
+	})
+	// ---- names that exercise Go name mangling
+	// the user implements every resolver of the mangled schema (named results and a doc comment on two of
+	// them), then only ADDS a field, then regenerates twice more with the schema unchanged
+	reg("mangled-names-add-only", 3, func(w *W, r *rng.R, k int, o *Obs) error {
+		switch k {
+		case 0:
+			w.Sch = mangledSchema()
+			o.Ops = []string{"initial"}
+		case 1:
+			o.Ops = []string{"edit", "add-field Query.version@a"}
+			q := w.Sch.typ("Query")
+			q.Fields = append(q.Fields, &SField{Name: "version", Ret: "String!", File: "a", Resolver: true})
+			return w.userEdit(r, EditOpts{Prob: 100,
+				NamedFor: map[string][2]string{"uRLInfoResolver.Hits": {"n", "err"}, "audit_entryResolver.Actor": {"res", "err"}},
+				DocFor:   map[string]string{"uRLInfoResolver.Hits": "// Hits counts the hits.\n//\n// Second paragraph.\n", "sKUResolver.APIKey": "// APIKey of the SKU.\n"}})
+		default:
+			o.Ops = []string{"repeat"}
+		}
+		return nil
+	})
+	// … then renames / removes / moves things around them, with helpers in the files
+	reg("mangled-names-evolve", 3, func(w *W, r *rng.R, k int, o *Obs) error {
+		switch k {
+		case 0:
+			w.Sch = mangledSchema()
+			o.Ops = []string{"initial"}
+		case 1:
+			o.Ops = []string{"edit+helpers", "rename-type SKU->Sku2", "remove-field URLInfo.URL", "move-type audit_entry b->a", "rename-field Type.func->fn"}
+			o.AddOnly = false
+			if err := w.userEdit(r, EditOpts{Prob: 100, Helpers: 2}); err != nil {
+				return err
+			}
+			for _, x := range w.Sch.Types {
+				for _, f := range x.Fields {
+					f.Ret = replaceBase(f.Ret, "SKU", "Sku2")
+				}
+			}
+			w.Sch.typ("SKU").Name = "Sku2"
+			u := w.Sch.typ("URLInfo")
+			u.Fields = append(u.Fields[:2:2], u.Fields[3:]...)
+			a := w.Sch.typ("audit_entry")
+			a.File = "a"
+			for _, f := range a.Fields {
+				f.File = "a"
+			}
+			w.Sch.typ("Type").Fields[1].Name = "fn"
+		case 2:
+			o.Ops = []string{"edit", "add-type APIKey@b", "toggle-resolver HTTPHeader.x=false"}
+			o.AddOnly = false
+			if err := w.userEdit(r, EditOpts{Prob: 50}); err != nil {
+				return err
+			}
+			w.Sch.Types = append(w.Sch.Types, &SType{Name: "APIKey", File: "b", Fields: []*SField{
+				{Name: "id", Ret: "ID!", File: "b"}, {Name: "IPAddress", Ret: "String", File: "b", Resolver: true}}})
+			w.Sch.typ("HTTPHeader").Fields[1].Resolver = false
+		default:
+			o.Ops = []string{"repeat"}
+			o.AddOnly = false
+		}
+		return nil
+	})
+	// a type name with a leading underscore: cases.Title gives `_Meta`, ucFirst `_meta`. gqlgen's own generated.go
+	// does not compile for it (ResolverRoot declares `_meta()`, the executor calls `_Meta()`), so validation fails on
+	// every run; resolvergen still rewrites the files: the accessor is looked up as `_Meta`, never found, and the old
+	// one goes to the WARNING block while the template writes a new one. The user's bodies must be kept all the same.
+	reg("leading-underscore-type", 2, func(w *W, r *rng.R, k int, o *Obs) error {
+		o.AddOnly = false
+		switch k {
+		case 0:
+			w.Sch = fixedSchema()
+			w.Sch.Types = append(w.Sch.Types, &SType{Name: "_meta", File: "a", Fields: []*SField{
+				{Name: "id", Ret: "ID!", File: "a"}, {Name: "_rev", Ret: "Int", File: "a", Resolver: true}, {Name: "URL", Ret: "String", File: "b", Resolver: true}}})
+			o.Ops = []string{"initial"}
+		case 1:
+			o.Ops = []string{"edit", "repeat"}
+			return w.userEdit(r, EditOpts{Prob: 100})
+		default:
+			o.Ops = []string{"repeat"}
+		}
+		return nil
+	})
+	// leftover code that contains the block-comment terminator but not the opener (inside strings)
+	reg("block-end-without-opener", 2, func(w *W, r *rng.R, k int, o *Obs) error {
+		switch k {
+		case 0:
+			w.Sch = fixedSchema()
+			o.Ops = []string{"initial"}
+		case 1:
+			o.Ops = []string{"edit", "remove-field Query.todo"}
+			o.AddOnly = false
+			q := w.Sch.typ("Query")
+			q.Fields = append(q.Fields[:1:1], q.Fields[2:]...)
+			return w.userEdit(r, EditOpts{NoRandom: true,
+				BodyFor:      map[string]string{"queryResolver.Todo": "\n\tpanic(fmt.Errorf(\"no match for %s\", \"a*/b\"))\n"},
+				ExtraHelpers: []string{"var helperStatic = \"^.*/static/\"", "func helperStar(p string) string {\n\treturn p + `**/`\n}"}})
+		default:
+			o.Ops = []string{"repeat"}
+			o.AddOnly = false
 		}
 		return nil
 	})
